@@ -183,7 +183,7 @@ func runC08(p *engine.Prog, r *engine.Report) {
 				recv := recvOf(ts[0])
 				var need []*engine.Formula
 				var needTxt []string
-				ready := engine.TrueAtom(fi.FieldPath(fi.T(recv).S, st, fReady))
+				ready := engine.TrueAtom(fi.FieldPath(c.shardIdent(fi, recv), st, fReady))
 				need = append(need, ready)
 				needTxt = append(needTxt, "shard.Ready")
 				need = append(need, errNilAtom(fi, ts[0], 1))
@@ -249,7 +249,7 @@ func runC08(p *engine.Prog, r *engine.Report) {
 						probs = append(probs, "pushed to a different shard than the one reported")
 					}
 					rtHashU := fi.FieldPath(fi.T(base).S, uc, c.fRuntime, c.fCfgHash)
-					needU := []*engine.Formula{engine.TrueAtom(fi.FieldPath(fi.T(recv).S, uc, fReady)), errNilAtom(fi, ts[0], 1)}
+					needU := []*engine.Formula{engine.TrueAtom(fi.FieldPath(c.shardIdent(fi, recv), uc, fReady)), errNilAtom(fi, ts[0], 1)}
 					if cfgTerm != "" {
 						needU = append(needU, engine.Not(engine.EqAtom(cfgTerm+"."+fCfgHash.Name(), rtHashU)))
 					}
@@ -315,7 +315,7 @@ func runC08(p *engine.Prog, r *engine.Report) {
 						continue
 					}
 					_ = k
-					notReady := engine.Not(engine.TrueAtom(fi.FieldPath(fi.T(recv).S, ret, fReady)))
+					notReady := engine.Not(engine.TrueAtom(fi.FieldPath(c.shardIdent(fi, recv), ret, fReady)))
 					v := fi.ViewOpt(notReady, nil, cutBlock)
 					if !v.Reachable(b3) {
 						continue
